@@ -305,6 +305,13 @@ func (x *Explorer) key(v ssa.Value, st *State) string {
 		}
 		return "p:" + c.Name()
 	case *ssa.FreeVar:
+		if c.Parent() != nil && c.Parent() != x.Fn {
+			// free variable of an inlined function literal: the captured cell
+			if a, ok := st.alias[x.rn(c)]; ok {
+				return a
+			}
+			return "fv:" + x.rn(c)
+		}
 		return "fv:" + c.Name()
 	case *ssa.Global:
 		return "g:" + shorten(c.String())
@@ -1187,6 +1194,19 @@ func (x *Explorer) Run() []Hit {
 									st.alias[x.rn(p)] = k
 								} else {
 									delete(st.alias, x.rn(p))
+								}
+							}
+						}
+						if mc, isMC := c.Common().Value.(*ssa.MakeClosure); isMC {
+							// `func() {...}()`: free variables are the captured cells
+							for fi, fv := range callee.FreeVars {
+								if fi < len(mc.Bindings) {
+									k := x.key(mc.Bindings[fi], st)
+									if len(k) <= maxKeyLen {
+										st.alias[x.rn(fv)] = k
+									} else {
+										delete(st.alias, x.rn(fv))
+									}
 								}
 							}
 						}
